@@ -47,6 +47,9 @@ extern "C" void __wrap_ffrprt(FILE *, int status) {
 	if (status) { g_ffrprt_errors++; ffcmsg(); }
 }
 
+// the repository's command-line tools, symbol main renamed by the build (see Makefile)
+extern "C" int psv_tool_eval_main(int argc, char *argv[]);
+extern "C" int psv_tool_inspect_main(int argc, char *argv[]);
 using namespace psv;
 
 namespace {
@@ -1319,6 +1322,17 @@ Json IoHarness::gen_c07(uint64_t runseed, const std::string &tier) {
 			plan["alloc_fault"] = a;
 		}
 	}
+	{
+		// the two command-line tools on the same image (own stream)
+		Rng tr(runseed, "tools");
+		if (tr.chance(0.2)) {
+			Json t = Json::object();
+			static const char *args[] = {"inside", "inside", "inside", "too_many", "too_few", "unparsable", "outside"};
+			t["eval_args"] = Json(args[tr.below(7)]);
+			t["seed"] = Json((long long)(tr.next() >> 20));
+			plan["tools"] = t;
+		}
+	}
 	Json bat = Json::object();
 	bat["seed"] = Json((long long)(gen.next() >> 20));
 	bat["points"] = Json(thorough ? 40 : 24);
@@ -1596,6 +1610,131 @@ bool c07_c(C07Case &c, const Bytes &img, const std::string &reader, const std::v
 	return true;
 }
 
+// ---- the command-line tools (photospline-inspect, photospline-eval) on the image ----
+// Their main() functions are linked in under other names (Makefile) and run in a forked child on the
+// simulated disk. Reference: the library's own verdict on the same image decides what the exit status
+// must be (a rejected file: not 0; an accepted table: 0 for inspect, and for eval 0 exactly when the
+// right number of parsable coordinates inside the knot range is given, printing what the library
+// evaluates to). A tool that dies of a memory error or hangs is a violation whatever the image.
+struct ToolOutcome { int exit_code = -1, sig = 0; std::string out; };
+ToolOutcome run_tool(int (*toolmain)(int, char **), const std::vector<std::string> &args) {
+	ToolOutcome r;
+	fflush(stdout); fflush(stderr);
+	int pfd[2];
+	if (pipe(pfd) != 0) return r;
+	pid_t pid = fork();
+	if (pid < 0) { close(pfd[0]); close(pfd[1]); return r; }
+	if (pid == 0) {
+		close(pfd[0]);
+		int nul = open("/dev/null", O_WRONLY);
+		if (nul >= 0 && !getenv("PSV_KEEP_STDERR")) dup2(nul, 2);
+		dup2(pfd[1], 1);
+		alarm(20);
+		std::set_terminate([]() { _exit(70); });   // an exception nobody catches: the tool's way of failing
+		std::vector<char *> av;
+		std::vector<std::string> copy = args;
+		for (auto &a : copy) av.push_back(&a[0]);
+		av.push_back(nullptr);
+		int rc = toolmain((int)copy.size(), av.data());
+		std::cout.flush(); fflush(stdout);
+		_exit(rc == 0 ? 0 : (rc & 0xff) ? (rc & 0xff) : 1);
+	}
+	close(pfd[1]);
+	char buf[512];
+	ssize_t n;
+	while ((n = read(pfd[0], buf, sizeof buf)) > 0) if (r.out.size() < 4096) r.out.append(buf, (size_t)n);
+	close(pfd[0]);
+	int status = 0;
+	while (waitpid(pid, &status, 0) < 0) {}
+	if (WIFSIGNALED(status)) r.sig = WTERMSIG(status); else r.exit_code = WEXITSTATUS(status);
+	return r;
+}
+std::string tool_death(const ToolOutcome &o) {
+	if (o.sig == SIGALRM) return "hangs";
+	if (o.sig) return "crash:sig" + std::to_string(o.sig);
+	if (o.exit_code == 77) return "crash:sanitizer";
+	return "";
+}
+
+void c07_tools(Env &env, const Json &tj, const Bytes &img, const std::string &fk) {
+	RunCtx &ctx = env.ctx;
+	// default-allocator readers: images whose headers ask for gigabytes are not given to them (ASan would
+	// turn std::bad_alloc into a fatal report), nor images on which the reader itself is known to die
+	if (alloc_hint(img) > (uint64_t(256) << 20) || !reader_hazard(img).cls.empty()) { ctx.count("c07:tools_skipped"); return; }
+	disk::put("/sim/tool.fits", img);
+	// the library's verdict and, for an accepted table, a point to evaluate at
+	bool accepted = false;
+	Snapshot snap;
+	std::string expect_out;
+	std::vector<double> x;
+	bool lookup_ok = false;
+	{
+		TabBox box(env.L);
+		Tab &t = box.make();
+		ReadOutcome ro = cxx_read_disk(t, "/sim/tool.fits");
+		env.drain("tools", true);
+		accepted = ro.ok;
+		if (!ro.ok && t.get_ndim()) box.abandon();
+		if (accepted) {
+			snap = snapshot(t);
+			std::string why;
+			if (!well_formed(snap.t, why)) { ctx.count("c07:tools_skipped"); return; }   // reported by oracle B already
+			Rng r((uint64_t)tj.geti("seed"), "toolpoint");
+			for (uint32_t d = 0; d < snap.t.ndim; d++) {
+				const auto &k = snap.t.knots[d];
+				double lo = k[snap.t.order[d]], hi = k[k.size() - snap.t.order[d] - 1];
+				double v = lo + (hi - lo) * (0.05 + 0.9 * r.unit());
+				// what the tool will parse from the text is what we evaluate at
+				char b[40]; snprintf(b, sizeof b, "%.17g", v);
+				x.push_back(strtod(b, nullptr));
+			}
+			std::vector<int> c(snap.t.ndim + 8);
+			lookup_ok = t.searchcenters(x.data(), c.data());
+			if (lookup_ok) { std::ostringstream os; os << t.ndsplineeval(x.data(), c.data(), 0) << std::endl; expect_out = os.str(); }
+		}
+	}
+	env.nontrivial = true;
+	ctx.count(accepted ? "c07:tools_on_accepted_image" : "c07:tools_on_rejected_image");
+	// inspect
+	{
+		ctx.crumb("photospline-inspect|%s|tool", fk.c_str());
+		ToolOutcome o = run_tool(psv_tool_inspect_main, {"photospline-inspect", "/sim/tool.fits"});
+		std::string death = tool_death(o);
+		ctx.log.ev("photospline-inspect: library %s -> exit=%d sig=%d", accepted ? "accepts" : "rejects", o.exit_code, o.sig);
+		env.state("photospline-inspect", fk, !death.empty() ? death : o.exit_code == 0 ? "exit0" : "failed");
+		if (!death.empty()) { ctx.violate("C07|safety|photospline-inspect|" + fk + "|tool-dies:" + death, "photospline-inspect " + death + " on an image the library " + (accepted ? "accepts" : "rejects")); return; }
+		if (!accepted && o.exit_code == 0) { ctx.violate("C07|A|photospline-inspect|" + fk + "|exit-status-0-on-rejected-file", "the library rejects the file, photospline-inspect exits 0"); return; }
+		if (accepted && o.exit_code != 0) { ctx.violate("C07|B|photospline-inspect|" + fk + "|fails-on-accepted-table", "the library reads the file, photospline-inspect exits " + std::to_string(o.exit_code) + (o.exit_code == 70 ? " (uncaught exception)" : "")); return; }
+	}
+	// eval
+	{
+		std::string mode = tj.gets("eval_args", "inside");
+		uint32_t nd = accepted ? snap.t.ndim : 2;
+		std::vector<std::string> args = {"photospline-eval", "/sim/tool.fits"};
+		std::vector<double> xs = x;
+		if (!accepted) xs.assign(nd, 0.5);
+		if (mode == "outside" && accepted) xs[0] = snap.t.knots[0].front() - 1.0 - std::fabs(snap.t.knots[0].front());
+		for (uint32_t d = 0; d < nd; d++) { char b[40]; snprintf(b, sizeof b, "%.17g", xs[d]); args.push_back(b); }
+		if (mode == "too_many") args.push_back("0.5");
+		if (mode == "too_few") args.pop_back();
+		if (mode == "unparsable") args.back() = "abc";
+		bool expect_ok = accepted && lookup_ok && mode == "inside";
+		bool expect_fail = !accepted || mode == "too_many" || mode == "too_few" || mode == "unparsable" || mode == "outside" || !lookup_ok;
+		ctx.crumb("photospline-eval|%s|tool %s", fk.c_str(), mode.c_str());
+		ToolOutcome o = run_tool(psv_tool_eval_main, args);
+		std::string death = tool_death(o);
+		ctx.log.ev("photospline-eval %s: library %s lookup=%d -> exit=%d sig=%d out=%s", mode.c_str(), accepted ? "accepts" : "rejects", (int)lookup_ok, o.exit_code, o.sig, clip(o.out, 40).c_str());
+		env.state("photospline-eval", fk + ":" + mode, !death.empty() ? death : o.exit_code == 0 ? "exit0" : "failed");
+		ctx.count("c07:tool_eval_" + mode);
+		if (!death.empty()) { ctx.violate("C07|safety|photospline-eval|" + fk + "|tool-dies:" + death, "photospline-eval (" + mode + ") " + death + " on an image the library " + (accepted ? "accepts" : "rejects")); return; }
+		if (expect_fail && o.exit_code == 0) { ctx.violate("C07|A|photospline-eval|" + fk + "|exit-status-0:" + (accepted ? mode : std::string("rejected-file")), "photospline-eval exits 0 although " + (accepted ? "its arguments are " + mode : std::string("the library rejects the file"))); return; }
+		if (expect_ok && o.exit_code != 0) { ctx.violate("C07|B|photospline-eval|" + fk + "|fails-on-accepted-table", "the library reads the file and evaluates at the point, photospline-eval exits " + std::to_string(o.exit_code)); return; }
+		if (expect_ok && o.out != expect_out) { ctx.violate("C07|B|photospline-eval|" + fk + "|prints-another-value", "library: " + clip(expect_out, 30) + " tool: " + clip(o.out, 30)); return; }
+		if (expect_ok) ctx.count("probe:tool_eval_matches_library");
+	}
+	disk::unlink("/sim/tool.fits");
+}
+
 void IoHarness::exec_c07(const Json &plan, Env &env) {
 	RunCtx &ctx = env.ctx;
 	TableSpec spec;
@@ -1721,7 +1860,9 @@ void IoHarness::exec_c07(const Json &plan, Env &env) {
 		c.fk = "alloc-fault";
 		ctx.log.ev("read again with allocation %llu of %llu refused", (unsigned long long)k, (unsigned long long)nallocs);
 		c07_cxx(c, img, reader, none, nullptr, nullptr, k, nullptr);
+		if (ctx.violation) return;
 	}
+	if (plan.has("tools")) c07_tools(env, plan["tools"], img, applied ? "corrupt" : "valid");
 }
 
 } // namespace
@@ -2039,6 +2180,7 @@ std::vector<Json> IoHarness::simplify(const Json &plan, const Json &aux) {
 		}
 	}
 	if (prop == "C07") {
+		if (plan.has("tools")) { Json c = plan; c.erase("tools"); out.push_back(c); }
 		std::string rd = plan.gets("reader");
 		if (plan["read_faults"].size()) {
 			Json c = plan; c["read_faults"] = Json::array(); out.push_back(c);
